@@ -49,7 +49,8 @@ class C11(Prop):
             'stopTestRun, 15% in unusual order. thorough adds every tree with <= 2 inner nodes on a path and fan-out <= 2 over a fixed '
             '5-call script. non-trivial = at least one status call and (>= 2 leaves or a field-owning decorator on some path); '
             'distinct = distinct input S-expression')
-    assumptions = ['datetime.now(utc) is an oracle value: canonicalised to `now` after checking it is tz-aware UTC and inside the run window',
+    assumptions = ['translator tie (harness/pystream.py): TimestampingStreamResult.status and StreamToQueue.route_code are symbolically executed; the queue dict, the status signatures, CopyStreamResult and StreamFailFast.status are matched on every run; trusted: the translator and the reading of the recognised forms by TTV/Model/DecoSrc.lean (_strict_map(methodcaller(...)) = call every target in order)',
+                   'datetime.now(utc) is an oracle value: canonicalised to `now` after checking it is tz-aware UTC and inside the run window',
                    'Python set/frozenset object identity and mutation are modelled by a heap of tag lists; the queue handed to StreamToQueue dispatches each event to the inner result synchronously',
                    'status() is called with the first k parameters positional (k varies with the input) and the rest by keyword, except that the field a `*args, **kwargs` decorator owns is always passed by keyword (StreamTagger: test_tags, TimestampingStreamResult: timestamp - passing those positionally through them raises TypeError in the unchanged code: outside the generated domain)']
 
@@ -68,6 +69,8 @@ class C11(Prop):
         from harness.pyset2lean import translate
         out = dict(S.extract_tables(repo))
         out['TTV/Generated/C11.lean'] = translate(repo)['TTV/Generated/C11.lean']   # StreamTagger's set arithmetic, translated from the source
+        from harness import pystream
+        out.update(pystream.generate_deco(repo))        # the other decorators' decision logic, translated from the source
         return out
 
     # ----- implementation side
